@@ -14,6 +14,7 @@ CPP_SUPPORT = r'''
 #include <memory>
 #include <variant>
 #include <vector>
+#include <functional>
 extern "C" uint8_t* diplomat_alloc(size_t size, size_t align);
 static char lb_[1 << 16];
 static size_t ln_;
@@ -22,6 +23,9 @@ static void LB() { static bool init_ = (setvbuf(stdout, nullptr, _IOLBF, 0), tru
 static void L(const char* fmt, ...) { va_list ap; va_start(ap, fmt); ln_ += (size_t)vsnprintf(lb_ + ln_, sizeof lb_ - ln_, fmt, ap); va_end(ap); }
 extern "C" void dv_log(const char* kind, const char* f, const char* v) { printf("{\"seq\":%lu,\"ev\":\"%s\",\"f\":\"%s\",\"v\":\"%s\"}\n", ++seq_, kind, f, v); }
 static void LE(const char* kind, const char* f) { dv_log(kind, f, lb_); }
+static void LEC(const char* f, const char* cbs, bool mr) { printf("{\"seq\":%lu,\"ev\":\"CCall\",\"f\":\"%s\",\"v\":\"%s\",\"cbs\":%s%s}\n", ++seq_, f, lb_, cbs, mr ? ",\"mr\":true" : ""); }
+// lives inside the callable handed to the binding: logs when the last copy of the callable is destroyed
+struct DropLog { const char* f; ~DropLog() { LB(); LE("CbDrop", f); } };
 static void LEM(const char* f) { printf("{\"seq\":%lu,\"ev\":\"CCall\",\"f\":\"%s\",\"v\":\"%s\",\"mr\":true}\n", ++seq_, f, lb_); }
 static float f32b(uint32_t b) { float f; memcpy(&f, &b, 4); return f; }
 static double f64b(uint64_t b) { double f; memcpy(&f, &b, 8); return f; }
@@ -44,6 +48,8 @@ class CppGen:
             return "En"
         if k == "struct":
             return t["n"]
+        if k == "unit":
+            return "void"
         raise ValueError(k)
 
     def prim_lit(self, p, bits):
@@ -102,7 +108,35 @@ class CppGen:
                 else:
                     pre.append("%s[%d] = static_cast<%s>(0x%xull);" % (nm, j, cty, x))
             return "%s(%s, %d)" % (span, nm, len(items))
+        if k == "cb":
+            return self.make_cb(t, v)
         raise ValueError("make " + k)
+
+    def make_cb(self, t, v):
+        """std::function that logs what it receives (CbEnter), answers from the script (CbReturn); a DropLog captured by
+        value reports the destruction of the callable the binding moved to the heap"""
+        f = v["f"]
+        ps = ", ".join("%s c%d" % (self.cty(a), j) for j, a in enumerate(t["ps"]))
+        rt = self.cty(t["r"])
+        body = ["(void)dl_; LB();"]
+        for j, a in enumerate(t["ps"]):
+            if j:
+                body.append('L(";");')
+            self.fmt(a, "c%d" % j, body)
+        body.append('LE("CbEnter", "%s");' % f)
+        if t["r"]["k"] != "unit":
+            pre = []
+            body.append("%s r_{}; switch (k_++) {" % rt)
+            for c, call in enumerate(v["calls"]):
+                body.append("case %d: r_ = %s; break;" % (c, self.make(t["r"], call["ret"], pre)))
+            body.append("default: break; }")
+            body.append("LB();")
+            self.fmt(t["r"], "r_", body)
+            body.append('LE("CbReturn", "%s"); return r_;' % f)
+        else:
+            body.append('(void)k_; LB(); L("()"); LE("CbReturn", "%s");' % f)
+        return ('std::function<%s(%s)>([k_ = 0, dl_ = std::shared_ptr<DropLog>(new DropLog{"%s"})](%s) mutable -> %s { %s })'
+                % (rt, ", ".join(self.cty(a) for a in t["ps"]), f, ps, rt, " ".join(body)))
 
     def fmt(self, t, e, out):
         k = t["k"]
@@ -148,6 +182,8 @@ class CppGen:
             out.append('L("]");')
         elif k == "unit":
             out.append('L("()");')
+        elif k == "cb":
+            out.append('L("cb");')
         else:
             raise ValueError("fmt " + k)
 
@@ -174,7 +210,16 @@ class CppGen:
         slots = []
         if sk in ("struct", "enum"):
             out_self = self.make(sig["self"], args["self"], pre)
+        cbs = []
         for i, p in enumerate(sig["params"]):
+            if p["k"] == "cb":
+                # the callable is handed over by value (moved): the binding owns the only copy
+                cf = "f%d.cb%d" % (n, i)
+                cbs.append(cf)
+                pre.append("auto a%d = %s;" % (i, self.make(p, dict(args["params"][i], f=cf), pre)))
+                names.append("std::move(a%d)" % i)
+                slots.append((p, "a%d" % i))
+                continue
             ex = self.make(p, args["params"][i], pre)
             if p["k"] in ("opq",):
                 names.append("static_cast<const Opq&>(*obj)")
@@ -203,7 +248,10 @@ class CppGen:
                 out.append('L(";");')
             first = False
             self.fmt(t, e, out)
-        out.append(('LEM("f%d");' if invalid_utf8 else 'LE("CCall", "f%d");') % n)
+        if cbs:
+            out.append('LEC("f%d", "%s", %s);' % (n, json.dumps(cbs).replace('"', '\\"'), "true" if invalid_utf8 else "false"))
+        else:
+            out.append(('LEM("f%d");' if invalid_utf8 else 'LE("CCall", "f%d");') % n)
         recv = {"none": "Host::", "opq": "host->", "opqmut": "host->", "struct": "s_.", "enum": "s_."}[sk]
         call = "%sf%d(%s)" % (recv, n, ", ".join(names))
         has_utf8 = any(p["k"] == "str" and p["enc"] == "utf8" for p in sig["params"])
